@@ -127,6 +127,10 @@ type item struct {
 	Round int `json:"r,omitempty"`
 	// Stack: the whole unexplored DFS stack of an unsplit scenario (instead of Prefix)
 	Stack [][]int `json:"k,omitempty"`
+	// Owner: worker (1-based) that holds the scenario's happens-before cache; its later slices go back to the
+	// same process (0 = anybody). Besides keeping the cache this avoids replaying prefixes in another
+	// process (observed once: a flavour whose behaviour differed between processes, not within one)
+	Owner int `json:"-"`
 }
 
 type vrec struct {
@@ -254,6 +258,8 @@ func runOne(scn *Scenario, prefix []int, trace bool) (*X, vrt.Result) {
 	return x, res
 }
 
+var defaultHash = map[string]uint64{}
+
 // noHB switches happens-before pruning off globally (VERIF_HB=0): used to cross-validate the pruned search
 // against the plain one.
 var noHB = os.Getenv("VERIF_HB") == "0"
@@ -303,6 +309,21 @@ func exploreItem(scn *Scenario, bound int, prefix []int, budget int, deadline ti
 		}
 		st.Execs++
 		st.Steps += res.Steps
+		if os.Getenv("VERIF_SELFCHECK") != "" {
+			// debugging aid: behaviour must not depend on what ran before in this process
+			if dflt, ok := defaultHash[scn.Name]; !ok {
+				_, d := runOne(scn, nil, false)
+				defaultHash[scn.Name] = d.Hash
+			} else if _, d := runOne(scn, nil, false); d.Hash != dflt {
+				st.EngineErr = append(st.EngineErr, fmt.Sprintf("%s: history-dependent behaviour: after schedule %v (execution %d of this item) the default schedule gives hash %x, it gave %x at first", scn.Name, picks(res.Choices), st.Execs, d.Hash, dflt))
+				return st
+			}
+			_, again := runOne(scn, picks(res.Choices), false)
+			if again.Hash != res.Hash || again.Steps != res.Steps {
+				st.EngineErr = append(st.EngineErr, fmt.Sprintf("%s: history-dependent behaviour: schedule %v gave hash %x/%d steps, immediately again %x/%d steps", scn.Name, picks(res.Choices), res.Hash, res.Steps, again.Hash, again.Steps))
+				return st
+			}
+		}
 		if len(res.Choices) > st.MaxChoices {
 			st.MaxChoices = len(res.Choices)
 		}
@@ -647,30 +668,45 @@ func run(cfg Config, scns []Scenario, tier, only string, nproc int, limit time.D
 				return 2
 			}
 			wg.Add(1)
-			go func(wk *worker) {
+			go func(wk *worker, me int) {
 				defer wg.Done()
 				defer func() {
 					wk.in.Flush()
 					wk.cmd.Process.Kill()
 					wk.cmd.Wait()
+					// whatever this worker still owned is anybody's now
+					mu.Lock()
+					for qi := range queue {
+						if queue[qi].Owner == me {
+							queue[qi].Owner = 0
+						}
+					}
+					mu.Unlock()
+					cond.Broadcast()
 				}()
 				for {
 					mu.Lock()
-					for len(queue) == 0 && inflight > 0 {
+					// take the most recently added item of the lowest-numbered scenario among those this worker
+					// may take (scenarios finish in order; deep subtrees first keeps the queue small)
+					best := -1
+					for {
+						for qi := len(queue) - 1; qi >= 0; qi-- {
+							if queue[qi].Owner != 0 && queue[qi].Owner != me {
+								continue
+							}
+							if best < 0 || queue[qi].Round < queue[best].Round || queue[qi].Round == queue[best].Round && queue[qi].Scn < queue[best].Scn {
+								best = qi
+							}
+						}
+						if best >= 0 || (len(queue) == 0 && inflight == 0) {
+							break
+						}
 						cond.Wait()
 					}
-					if len(queue) == 0 {
+					if best < 0 {
 						mu.Unlock()
 						cond.Broadcast()
 						return
-					}
-					// take the most recently added item of the lowest-numbered scenario (scenarios finish in
-					// order; deep subtrees first keeps the queue small)
-					best := len(queue) - 1
-					for qi := len(queue) - 1; qi >= 0; qi-- {
-						if queue[qi].Round < queue[best].Round || queue[qi].Round == queue[best].Round && queue[qi].Scn < queue[best].Scn {
-							best = qi
-						}
 					}
 					it := queue[best]
 					queue = append(queue[:best], queue[best+1:]...)
@@ -732,7 +768,7 @@ func run(cfg Config, scns []Scenario, tier, only string, nproc int, limit time.D
 						fmt.Fprintf(os.Stderr, "    slice %s bound=%d round=%d in-stack=%d execs=%d rest=%d pruned=%d\n", scns[it.Scn].Name, it.Bound, it.Round, len(it.Stack), st.Execs, len(st.Rest), st.Pruned)
 					}
 					if unsplit && len(st.Rest) > 0 {
-						queue = append(queue, item{Scn: it.Scn, Bound: it.Bound, Stack: st.Rest, Round: it.Round + 1})
+						queue = append(queue, item{Scn: it.Scn, Bound: it.Bound, Stack: st.Rest, Round: it.Round + 1, Owner: me})
 						pendingPerScn[it.Scn]++
 					} else {
 						for _, r := range st.Rest {
@@ -760,7 +796,7 @@ func run(cfg Config, scns []Scenario, tier, only string, nproc int, limit time.D
 					mu.Unlock()
 					cond.Broadcast()
 				}
-			}(wk)
+			}(wk, w+1)
 		}
 		wg.Wait()
 		if len(queue) > 0 {
